@@ -238,3 +238,51 @@ def model_methods_stateless(ctx, model, prop, rule, methods=("loading", "pressur
                               "earlier calls and go stale when parameters change in place (refit, `model.params[k] = v`)"))
     ctx.ob(True, nontrivial_key=("stateless-scan", n))
     ctx.analysed["model equation methods scanned for state writes"] = n
+
+
+def no_absolute_tolerance(ctx, model, prop, rule, prefixes, what):
+    """no comparison with an absolute tolerance (numpy.isclose / allclose default atol=1e-8, math.isclose(abs_tol=...)) on
+    unit-bearing isotherm data: the decision changes when the same quantity is expressed in a smaller unit or is simply small"""
+    from .core import Finding
+    n = 0
+    for fi in model.all_functions():
+        if not any(fi.qualname.startswith(p) for p in prefixes):
+            continue
+        n += 1
+        for c in _ast.walk(fi.node):
+            if isinstance(c, _ast.Call) and _ast.unparse(c.func).split(".")[-1] in ("isclose", "allclose", "assert_allclose", "assert_almost_equal"):
+                fn = _ast.unparse(c.func)
+                if fn.split(".")[-1] in ("assert_allclose", "assert_almost_equal") and "guess" in _ast.unparse(c):
+                    continue        # sanity assertion on a user supplied fraction vector (sum == 1), dimensionless
+                kws = {k.arg: k.value for k in c.keywords}
+                atol0 = "atol" in kws and isinstance(kws["atol"], _ast.Constant) and kws["atol"].value == 0
+                abs0 = fn.startswith("math.") and ("abs_tol" not in kws)
+                ctx.ob(atol0 or abs0, Finding(f"{prop}.{rule}", fi.where, f"{fi.short}|absolute-tolerance:{_ast.unparse(c)[:50]}",
+                                              f"line {c.lineno}: `{_ast.unparse(c)[:100]}` compares {what} with an absolute tolerance "
+                                              "(numpy default atol=1e-8): values of that size or below (small pressures, small units) are "
+                                              "treated as equal / as zero"))
+    ctx.ob(True, nontrivial_key=("abs-tol-scan", tuple(prefixes)))
+    ctx.analysed[f"functions scanned for absolute tolerances ({', '.join(prefixes)})"] = n
+
+
+def methods_store_nothing(ctx, model, prop, rule, qualnames, why):
+    """the named read-only methods contain no store to an attribute of self (directly in their body)"""
+    from .core import Finding, AnalysisError
+    for q in qualnames:
+        cq, _, mname = q.rpartition(".")
+        ci = model.cls(cq)
+        fi = ci.methods.get(mname)
+        if fi is None:
+            raise AnalysisError(f"anchor missing: {q}")
+        bad = []
+        for x in _ast.walk(fi.node):
+            tg = x.targets if isinstance(x, _ast.Assign) else [x.target] if isinstance(x, (_ast.AugAssign, _ast.AnnAssign)) else []
+            for t in tg:
+                base = t
+                while isinstance(base, _ast.Subscript):
+                    base = base.value
+                if isinstance(base, _ast.Attribute) and _ast.unparse(base).startswith("self."):
+                    bad.append((x.lineno, _ast.unparse(t)))
+        ctx.ob(not bad, Finding(f"{prop}.{rule}", fi.where, f"{fi.short}|stores:{sorted({b[1] for b in bad})}",
+                                f"{fi.short} stores {sorted({b[1] for b in bad})} on the isotherm (lines {sorted({b[0] for b in bad})}): {why}"),
+               nontrivial_key=("store-nothing", q))
